@@ -11,7 +11,7 @@ import re._constants as sre_c
 from .. import astutil as A
 from ..fa import FA
 from ..loader import AnalysisError
-from .fresh import flow_nodes, attr_writes, at_of, reaches_avoiding
+from .fresh import flow_nodes, attr_writes, at_of, reaches_avoiding, alternatives
 
 FR = "reference.FunctionReference"
 
@@ -400,13 +400,24 @@ def check(ck):
         ck.ob(R2, mi.key(None, "delimiters"), ok2, "the unversioned name uses the same cluster and module delimiters" if ok2 else
               "MementoFunction builds its unversioned name with %s, the parser expects %s" % (sorted(concat2), [d_cluster, d_module]), mi.where())
         # the unversioned name ends with <fn>.__module__ + ':' + <fn>.__qualname__, and that write is the last one
-        def _mod_fn_tail(v_, at_):
-            p_ = _flat_parts(mi.expand(v_, at_))
-            if not p_ or len(p_) < 3:
+        def _mod_fn_tail(v_, at_, depth=0):
+            """Does every value the expression may hold END with <fn>.__module__ ':' <fn>.__qualname__ ?  (The end of
+            a string is the end of its last part: a local in last position stands for the values assigned to it.)"""
+            for (alt, a2) in alternatives(mi, v_, at_):
+                p_ = _flat_parts(alt)
+                if not p_:
+                    return False
+                if len(p_) >= 3:
+                    (k1, a1), (k2, a2_), (k3, a3) = p_[-3:]
+                    if k1 == "expr" and k2 == "lit" and k3 == "expr" and a2_ == d_module and isinstance(a1, ast.Attribute) and a1.attr == "__module__" \
+                            and isinstance(a3, ast.Attribute) and a3.attr == "__qualname__" and A.norm(a1.value) == A.norm(a3.value):
+                        continue
+                k_, last = p_[-1]
+                if k_ == "expr" and isinstance(last, ast.Name) and mi.df.is_local(last.id) and depth < 6 and not (len(p_) == 1 and last is alt):
+                    if _mod_fn_tail(last, a2, depth + 1):
+                        continue
                 return False
-            (k1, a1), (k2, a2), (k3, a3) = p_[-3:]
-            return k1 == "expr" and k2 == "lit" and k3 == "expr" and a2 == d_module and isinstance(a1, ast.Attribute) and a1.attr == "__module__" \
-                and isinstance(a3, ast.Attribute) and a3.attr == "__qualname__" and A.norm(a1.value) == A.norm(a3.value)
+            return True
         writes = [(st_, v_, aug_) for (st_, v_, aug_) in attr_writes(mi, "self.qualified_name_without_version") if mi.nodes(st_)]
         tails = [st_ for (st_, v_, aug_) in writes if _mod_fn_tail(v_, mi.nodes(st_)[0])]
         tail_nodes = mi.nodes_all(tails)
@@ -499,7 +510,7 @@ def check(ck):
         for r in f.returns():
             if r.value is not None:
                 d |= f.deps(r.value)
-        has_cmp = any(isinstance(n, ast.Compare) and "version" in A.norm(n) and isinstance(n.ops[0], ast.NotEq) for n in A.walk_body(f.node))
+        has_cmp = any(isinstance(n, ast.Compare) and "version" in A.norm(n) and isinstance(n.ops[0], (ast.NotEq, ast.Eq)) for n in A.walk_body(f.node))
         return "call:import_module" in d and has_cmp
     helpers_fresh = {f.fi.name for f in lookup_fns[1:] if fresh_resolver(f)}
     for r in ff.returns():
@@ -522,7 +533,16 @@ def check(ck):
                   "the function returned by the lookup can come from `%s` instead of a fresh import walk and version check: after the callee is "
                   "edited or removed, stored references to its old version keep resolving to the stale function instead of becoming external"
                   % A.short(bad[0][1].value, 60), ff.where(bad[0][1].stmt))
-    vc = [n for f in lookup_fns for n in A.walk_body(f.node) if isinstance(n, ast.Compare) and isinstance(n.ops[0], ast.NotEq) and "version()" in A.norm(n.left)]
+    def _version_compares(f):
+        """Comparisons (== / !=) one side of which is the looked-up function's current version()."""
+        out = []
+        for n in A.walk_body(f.node):
+            if isinstance(n, ast.Compare) and len(n.ops) == 1 and isinstance(n.ops[0], (ast.Eq, ast.NotEq)) and f.nodes(n):
+                sides = [f.xnorm(n.left, f.nodes(n)[0]), f.xnorm(n.comparators[0], f.nodes(n)[0])]
+                if any(".version()" in x_ for x_ in sides):
+                    out.append(n)
+        return out
+    vc = [n for f in lookup_fns for n in _version_compares(f)]
     ck.ob(R3, ff.key(None, "version-checked"), bool(vc), "the looked-up function's current version is compared with the stored one" if vc else
           "the lookup no longer compares memento_fn.version() with the stored version", ff.where())
     fcall = fq.one(fq.calls("_find_function"), "_find_function call")
@@ -649,10 +669,18 @@ def check(ck):
                           "can no longer be decoded, so the entry stops being served / listings raise" % A.short(g.test, 60), fx.where(r_))
     da = FA(ck, "serialization.MementoCodec.decode_arg")
     rz = [r_ for r_ in da.stmts(ast.Raise) if isinstance(r_.exc, ast.Call) and A.call_attr(r_.exc) == "FunctionNotFoundError"]
-    okd = len(rz) == 1 and da.enclosing(rz[0], ast.If) is not None
+    # the refusal is reached exactly when the freshly decoded reference has no function object: every path
+    # condition of the raise says `<decoded reference>.memento_fn is None`, and says nothing else about the reference
+    okd = len(rz) == 1
     if okd:
-        xt_ = da.xnorm(da.enclosing(rz[0], ast.If).test)
-        okd = xt_.startswith("cls.decode_fn_reference(") and xt_.endswith(").memento_fn is None")
+        conds = da.conditions(rz[0])
+        if conds is None:
+            raise AnalysisError("decode_arg: too many paths to the FunctionNotFoundError refusal")
+
+        def no_fn(lit):
+            return lit[1] and lit[0].startswith("cls.decode_fn_reference(") and lit[0].endswith(").memento_fn is None")
+
+        okd = bool(conds) and all(any(no_fn(l_) for l_ in c_) and not any("decode_fn_reference(" in l_[0] and not no_fn(l_) for l_ in c_) for c_ in conds)
     ck.ob(R3, da.key(None, "function-argument-decoding"), okd, "a function-valued argument is refused only when no function object (not even a stub) exists" if okd else
           "decode_arg refuses function references under another condition than `memento_fn is None`", da.where())
     # (c) metadata source treats unresolvable functions as absent; memory backend likewise
